@@ -500,6 +500,8 @@ def gen_ops(rng, spec, P, horizon):
                 continue
         elif k == 'mkasset':
             op['v'] = rng.choice((1, 2.5, -3, 10))
+            # asset names need not be unique: another asset called like the first device, or like the previous late one
+            op['dup'] = rng.choice((None, None, 'device', 'late'))
         ops.append(op)
     ops.sort(key=lambda o: (o['t'], -o['pr']))
     return ops
